@@ -394,6 +394,50 @@ def make_view(module, t, store, unit, order, scope, requested_size, requires, ar
     return ScalarView(module, t, store, nbits, order, requires, scope)
 
 
+class Completion(object):
+    """Evaluation mode in which every expression leaf the strict semantics
+    cannot read (missing bytes, absent field, failed [requires], unknown
+    parameter) takes an arbitrary in-range value of its type.  A view may
+    report something as known although a leaf is unreadable when the value
+    does not depend on that leaf (the compiler folds `x * 0`, `c ? 5 : 5`,
+    `$max(x, 7) <= 1` from its bounds); such a report is right iff it equals
+    the value under every completion."""
+
+    def __init__(self, rng):
+        self.rng = rng
+        self.memo = {}
+
+    def leaf(self, key, lo, hi, extra=()):
+        if key not in self.memo:
+            r = self.rng
+            cands = [lo, hi, max(lo, min(hi, 0)), max(lo, min(hi, 1)), r.randint(lo, hi), r.randint(lo, hi),
+                     max(lo, min(hi, r.randint(0, 16))), max(lo, min(hi, r.randint(0, 16))),
+                     max(lo, min(hi, r.randint(-4, 300)))] + [x for x in extra if lo <= x <= hi]
+            self.memo[key] = r.choice(cands)
+        return self.memo[key]
+
+
+COMPLETION = None
+
+
+def _complete_scalar(view, sname, fname):
+    c = COMPLETION
+    t = view.t
+    nbits = view.nbits or 8
+    if t.kind == "float":
+        return UNSPEC
+    lo, hi = scalar_range(t, nbits)
+    store = view.store
+    where = getattr(store, "off", None) if not store.null else None
+    if where is None and not store.null and getattr(store, "addrs", None):
+        where = store.addrs[0]
+    key = (sname, fname, where)
+    if t.kind == "flag":
+        return bool(c.leaf(key, 0, 1))
+    extra = [v for _n, v in t.ref.values] if t.kind == "enum" else ()
+    return c.leaf(key, lo, hi, extra)
+
+
 class StructView(object):
     def __init__(self, module, s, params, store):
         self.module = module
@@ -436,41 +480,52 @@ class StructView(object):
             v = sub
         return v.has(v.s.field(path[-1]))
 
-    def eval_ref(self, path, this=None):
+    def eval_ref(self, path, this=None, top=False):
+        """`top`: the value is asked for as the field's own observation (not as
+        a leaf of another expression): presence and [requires] apply strictly
+        even in completion mode."""
         name = path[0]
         if name == "this":
             return this if this is not None else UNSPEC
         if name in ("$size_in_bytes", "$size_in_bits"):
             return self.size()
         if name in self.params and len(path) == 1:
-            return self.params[name]
+            v = self.params[name]
+            if v is UNKNOWN and COMPLETION is not None:
+                for p in self.s.params:
+                    if p.name == name:
+                        if p.kind == "enum":
+                            return COMPLETION.leaf((self.s.name, name, "param"), 0, 255, [x for _n, x in p.enum.values])
+                        lo, hi = (0, (1 << p.bits) - 1) if p.kind == "uint" else (-(1 << (p.bits - 1)), (1 << (p.bits - 1)) - 1)
+                        return COMPLETION.leaf((self.s.name, name, "param"), lo, hi)
+            return v
         f = self.s.field(name)
         if f is None:
             raise KeyError("no field %r in %s" % (name, self.s.name))
-        key = ("val", f.name, tuple(path[1:]))
+        key = ("val", f.name, tuple(path[1:]), top)
         if key in self._memo:
             return self._memo[key]
         if key in self._busy:
             return UNSPEC
         self._busy.add(key)
         try:
-            r = self._eval_ref(f, path)
+            r = self._eval_ref(f, path, top)
         finally:
             self._busy.discard(key)
         self._memo[key] = r
         return r
 
-    def _eval_ref(self, f, path):
+    def _eval_ref(self, f, path, top=False):
         h = self.has(f)
         if h is UNSPEC:
             return UNSPEC
-        if h is not True:
+        if h is not True and (COMPLETION is None or top):
             return UNKNOWN
         if f.kind == "virtual":
             v = self.eval(f.expr)
             if len(path) > 1:
                 return UNSPEC
-            if known(v) and f.requires is not None:
+            if known(v) and f.requires is not None and (COMPLETION is None or top):
                 r = self.eval(f.requires, this=v)
                 if r is not True:
                     return UNKNOWN if r is not UNSPEC else UNSPEC
@@ -481,13 +536,15 @@ class StructView(object):
         if len(path) > 1:
             if not isinstance(view, StructView):
                 return UNSPEC
-            if view.store.null:
+            if view.store.null and COMPLETION is None:
                 return UNKNOWN
             return view.eval_ref(path[1:])
         if isinstance(view, ScalarView):
             ok, v = view.read()
             if ok is UNSPEC:
                 return UNSPEC
+            if ok is not True and COMPLETION is not None:
+                return _complete_scalar(view, self.s.name, f.name)
             return v if ok else UNKNOWN
         return UNSPEC
 
@@ -716,7 +773,7 @@ class StructView(object):
 
     def field_ok(self, f):
         if f.kind == "virtual":
-            v = self.eval_ref([f.name])
+            v = self.eval_ref([f.name], top=True)
             if v is UNSPEC:
                 return UNSPEC
             return known(v)
@@ -736,12 +793,12 @@ def _patch_anon_scope():
     names to the outer view."""
     orig_field = StructView.eval_ref
 
-    def eval_ref(self, path, this=None):
+    def eval_ref(self, path, this=None, top=False):
         outer = getattr(self, "outer", None)
         if outer is not None and path[0] not in ("this", "$size_in_bits", "$size_in_bytes") and \
                 self.s.field(path[0]) is None:
-            return outer.eval_ref(path, this)
-        return orig_field(self, path, this)
+            return outer.eval_ref(path, this, top)
+        return orig_field(self, path, this, top)
 
     StructView.eval_ref = eval_ref
 
